@@ -1,6 +1,7 @@
 """C02 — stateless streams honour their documented error / absent / present contract."""
 import itertools, random
 from common import *
+from common import proof_check_streams
 
 PID = "C02"
 CATS = ("E1", "E2", "N", "S")
@@ -299,7 +300,7 @@ def make_pow_query(exe, cfg):
 
 
 def run(chk, replay=None):
-    proof = proof_check(PID)
+    proof = proof_check_streams(PID, "C02Streams")
     drv = build_driver()
     exe = build_harness("default")
     cfg = harness_config(exe)
